@@ -55,7 +55,9 @@ var targets = []target{
 	{Pkg: "go.brendoncarroll.net/p2p/s/fragswarm", Funcs: []string{"appendUvarint", "newMessage", "parseMessage",
 		"aggregator.addPart", "aggregator.assemble"}},
 	{Pkg: "go.brendoncarroll.net/p2p/p/p2pke", Funcs: []string{"newMessage", "ParseMessage", "Message.GetNonce",
-		"Message.SetNonce", "Message.HeaderBytes", "Message.Body", "IsInitHello", "IsRespHello", "IsHello", "IsPostHandshake"}},
+		"Message.SetNonce", "Message.HeaderBytes", "Message.Body", "IsInitHello", "IsRespHello", "IsHello", "IsPostHandshake",
+		"Session.canSend", "Session.canReceive", "Session.IsReady"}, OpaqueRecv: []string{"Session"}},
+	{Pkg: "go.brendoncarroll.net/p2p", Funcs: []string{"VecSize", "VecBytes"}},
 	{Pkg: "golang.zx2c4.com/wireguard/replay", Funcs: []string{"Filter.Reset", "Filter.ValidateCounter"}},
 }
 
@@ -183,10 +185,58 @@ func run(repo string, w io.Writer) (err error) {
 			return fmt.Errorf("functions not found in %s: %v", t.Pkg, miss)
 		}
 	}
+	g.closeOpaqueFields()
 	g.analyseMutation()
 	g.analyseNil()
 	g.emitAll(w, repo)
 	return nil
+}
+
+// closeOpaqueFields: a method with an opaque receiver that calls another such method on the same receiver also
+// needs the callee's fields as parameters (to a fixed point).
+func (g *gen) closeOpaqueFields() {
+	for changed := true; changed; {
+		changed = false
+		for _, fi := range g.order {
+			if fi.opaqueRecv == nil {
+				continue
+			}
+			has := map[*types.Var]bool{}
+			for _, f := range fi.opaqueFields {
+				has[f] = true
+			}
+			ast.Inspect(fi.decl.Body, func(n ast.Node) bool {
+				call, ok := n.(*ast.CallExpr)
+				if !ok {
+					return true
+				}
+				se, ok := call.Fun.(*ast.SelectorExpr)
+				if !ok {
+					return true
+				}
+				id, ok := se.X.(*ast.Ident)
+				if !ok || fi.pkg.info.Uses[id] != fi.opaqueRecv {
+					return true
+				}
+				fn, ok := fi.pkg.info.Uses[se.Sel].(*types.Func)
+				if !ok {
+					return true
+				}
+				callee := g.fns[fn.FullName()]
+				if callee == nil {
+					return true
+				}
+				for _, f := range callee.opaqueFields {
+					if !has[f] {
+						has[f] = true
+						fi.opaqueFields = append(fi.opaqueFields, f)
+						changed = true
+					}
+				}
+				return true
+			})
+		}
+	}
 }
 
 func recvTypeName(e ast.Expr) string {
